@@ -37,6 +37,44 @@ func c06Consumers(e *Env, work string) {
 	}
 	tamper("migs")
 	tamper("sub/migs")
+	// a second kind of damage: the files are untouched, atlas.sum itself is inconsistent (an entry hash edited
+	// under the old header; the header edited; a line without "h1:")
+	sumTamper := func(rel, kind string) {
+		p := filepath.Join(root, rel, "atlas.sum")
+		b, err := os.ReadFile(p)
+		if err != nil {
+			return
+		}
+		ls := strings.Split(strings.TrimRight(string(b), "\n"), "\n")
+		if len(ls) < 2 {
+			return
+		}
+		flip := func(line string) string {
+			r := []byte(line)
+			k := len(r) - 5
+			if r[k] == 'A' {
+				r[k] = 'B'
+			} else {
+				r[k] = 'A'
+			}
+			return string(r)
+		}
+		switch kind {
+		case "entry":
+			ls[1] = flip(ls[1])
+		case "header":
+			ls[0] = flip(ls[0])
+		case "format":
+			ls[1] = strings.Replace(ls[1], " h1:", " ", 1)
+		}
+		os.WriteFile(p, []byte(strings.Join(ls, "\n")+"\n"), 0o644)
+	}
+	sumKinds := []string{"entry", "header", "format"}
+	for _, k := range sumKinds {
+		if mk("sum_" + k) {
+			sumTamper("sum_"+k, k)
+		}
+	}
 	abs := "file://" + filepath.Join(root, "migs")
 	dev := "sqlite://dev?mode=memory"
 	type cmd struct {
@@ -81,6 +119,9 @@ func c06Consumers(e *Env, work string) {
 		{"relative URL with a parent", "file://good", "file://sub/migs"},
 		{"absolute URL", "file://" + filepath.Join(root, "good"), abs},
 	}
+	for _, k := range sumKinds {
+		addrs = append(addrs, struct{ name, good, bad string }{"relative URL, atlas.sum damaged (" + k + ")", "file://good", "file://sum_" + k})
+	}
 	k := 0
 	for _, c := range cmds {
 		for _, a := range addrs {
@@ -106,7 +147,7 @@ func c06Consumers(e *Env, work string) {
 					acted = true
 				}
 			}
-			if bad.Code == 0 || !strings.Contains(out, "checksum mismatch") || acted {
+			if bad.Code == 0 || !strings.Contains(out, "checksum") || acted {
 				e.Res.Violate("failing-input", "consumer-skips-validation", fmt.Sprintf("`%s` (directory addressed by a %s: %s) on a directory whose file was edited after hashing: exit %d, acted on the edited content: %v, output: %s", c.name, a.name, a.bad, bad.Code, acted, trunc(out, 300)), "Props.C06 (every consumer validates first)", map[string]any{"command": c.name, "address": a.bad})
 			}
 		}
